@@ -82,7 +82,9 @@ std::vector<Record> make_records(Family* f, const Plan& p, Ctx* ctx) {
   for (const Step& s : p.steps) {
     if (ctx) ctx->begin_step(idx, s.kind);
     rnd.rng.seed(mix(p.run_seed, static_cast<u64>(idx))); idx++;
-    if (s.kind == OP_CHECKPOINT) { int v = static_cast<int>(s.a) % f->n_variants(); if (!sk->variant_ok(v)) v = 0; Record r; r.variant = v; r.img = sk->ser(v, 0);
+    if (s.kind == OP_CHECKPOINT) { int v = static_cast<int>(s.a) % f->n_variants(); if (!sk->variant_ok(v)) v = 0; Record r; r.variant = v;
+      if (!sk->state_consistent()) { r.obs = "THROWS (object in a recorded inconsistent state, image not judged)"; out.push_back(std::move(r)); continue; }
+      r.img = sk->ser(v, 0);
       // what the writing version itself sees when it reads the image back (not the in-memory source: a writer defect of the baseline is C09's business)
       try { ExactBuf eb(r.img.data(), r.img.size()); std::unique_ptr<Sk> back(sk->de(v, eb.p, eb.n)); r.obs = back->obs(false); } catch (const std::exception& e) { r.obs = std::string("THROWS ") + e.what(); }
       out.push_back(std::move(r)); }
@@ -93,7 +95,7 @@ std::vector<Record> make_records(Family* f, const Plan& p, Ctx* ctx) {
 
 struct C10World: World {
   const char* name() const override { return "c10" GROUP_NAME; }
-  const char* step_name(int k) const override { switch (k) { case OP_FEED: return "feed"; case OP_MERGE: return "merge"; case OP_MERGE_MOVE: return "merge_move"; case OP_RESET: return "reset"; case OP_CHECKPOINT: return "checkpoint"; default: return "step"; } }
+  const char* step_name(int k) const override { switch (k) { case OP_FEED: return "feed"; case OP_MERGE: return "merge"; case OP_MERGE_MOVE: return "merge_move"; case OP_RESET: return "reset"; case OP_CHECKPOINT: return "checkpoint"; case 99: return "read_peer_image"; default: return "step"; } }
   std::string family_of(const Plan& p) const override { return p.cfg.empty() ? "?" : family_at(p.cfg[0])->name(); }
   bool shrinkable() const override { return false; }   // the peer's records exist for the generated plan only
   Plan generate(u64 run_seed, int tier) override {
@@ -134,13 +136,17 @@ struct C10World: World {
     auto it = peer().find(p.run_seed);
     if (it == peer().end()) { ctx.probe("no_peer_records_for_run"); return; }
     const std::vector<Record>& theirs = it->second;
-    if (mine_ok) ctx.require(theirs.size() == mine.size(), ("C10|" + fam_name + "|record-count-differs-between-versions").c_str(), std::to_string(mine.size()) + " vs " + std::to_string(theirs.size()));
+    // the two versions may not get equally far through a plan (an exception of the library ends a run of the version that has the defect); the records both
+    // wrote are compared, the rest is counted
+    if (mine_ok && theirs.size() != mine.size()) ctx.probe("record_count_differs_between_versions");
     for (size_t i = 0; i < theirs.size(); i++) {
       const Record& t = theirs[i]; const std::string where = "record " + std::to_string(i) + " (" + std::to_string(t.img.size()) + " bytes)";
       const std::string fpfx = "C10|" + fam_name + "|v" + std::to_string(t.variant) + "|";
+      ctx.begin_step(1000 + static_cast<int>(i), 99);
+      // an image its own writer cannot read back is a defect of the writing version in producing it, not of this version in reading it
+      if (t.obs.rfind("THROWS ", 0) == 0) { ctx.probe("writing_version_could_not_read_its_own_image"); continue; }
       std::unique_ptr<Sk> got;
       { ExactBuf eb(t.img.data(), t.img.size()); try { got.reset(proto->de(t.variant, eb.p, eb.n)); } catch (const std::exception& e) { ctx.fail(fpfx + "peer-image-rejected", where + ": " + e.what()); } }
-      if (t.obs.rfind("THROWS ", 0) == 0) { ctx.probe("writing_version_could_not_read_its_own_image"); continue; }
       std::string o;
       try { o = got->obs(false); }
       catch (const std::exception& e) {
